@@ -262,6 +262,45 @@ func TestVerifC05(t *testing.T) {
 				}
 				r.EvalN("public-api:"+pn, 4)
 			}
+			// many goroutines construct ciphers for DIFFERENT keys at the same time (and for the same key
+			// repeatedly): each must get the cipher of its own key
+			{
+				nk := 8
+				ks := keys[3 : 3+nk]
+				probe := rng.Bytes(16)
+				wantCT := make([][]byte, nk)
+				for i, k := range ks {
+					wantCT[i] = ref.SM4Encrypt(k, probe)
+				}
+				hk.Parallel(hk.N(4000, 40000), func(i int) {
+					ki := i % nk
+					if i%7 == 0 {
+						ki = (i / 7) % nk
+					}
+					blk, err := NewCipher(ks[ki])
+					if err != nil {
+						r.Violation("NewCipher-rejects-16-byte-key:"+pn, hk.D{})
+						return
+					}
+					out := make([]byte, 16)
+					blk.Encrypt(out, probe)
+					if !bytes.Equal(out, wantCT[ki]) {
+						which := -1
+						for j := range wantCT {
+							if bytes.Equal(out, wantCT[j]) {
+								which = j
+							}
+						}
+						r.Violation("concurrently-constructed-cipher-uses-wrong-key:"+pn, hk.D{"key_index": ki, "behaves_like_key_index": which, "key": hk.Hex(ks[ki])})
+					}
+					back := make([]byte, 16)
+					blk.Decrypt(back, out)
+					if !bytes.Equal(back, probe) {
+						r.Violation("concurrently-constructed-cipher-decrypt-wrong:"+pn, hk.D{"key_index": ki})
+					}
+				})
+				r.EvalN("concurrent-construction:"+pn, hk.N(4000, 40000))
+			}
 			// key lengths other than 16 must be rejected
 			for l := 0; l <= 40; l++ {
 				if l == 16 {
